@@ -668,13 +668,13 @@ def postcond_case(draw, tier="quick"):
 LEGS = [
     Leg(
         name="lifecycle", run=run_lifecycle, strategy=lambda tier: lifecycle_case(tier),
-        quick=700, thorough=20000, quick_shards=8, thorough_shards=8, nt_floor=0.3,
+        quick=700, thorough=12000, quick_shards=8, thorough_shards=8, nt_floor=0.3,
         rule="operation sequence with >= 1 module call on which an armed hook fired and >= 1 module call on which a "
              "hook was suppressed (mode flag, not registered / registered elsewhere, or collected)",
     ),
     Leg(
         name="postcond", run=run_postcond, strategy=lambda tier: postcond_case(tier),
-        quick=700, thorough=20000, quick_shards=8, thorough_shards=8, nt_floor=0.2,
+        quick=700, thorough=12000, quick_shards=8, thorough_shards=8, nt_floor=0.2,
         rule="sequence around one Clamping / Normalization hook with >= 1 firing that turned freshly written, "
              "non-conforming attribute values into conforming ones and >= 1 module / manual call on which the hook "
              "was not armed and non-conforming values stayed untouched",
